@@ -148,12 +148,13 @@ PROPS = {
     'C12': {
         # the reported distance divides by the DECLARED dimension (not the padded length of the quantised vector): clause of the search contract
         'verus': {'reader_search': ['Reader::nns_by_leaf']},
-        'kani': {'quick': [('bq_codec', BQ_QUICK), ('bq_distance', ['bq_euclidean_is_4h_8_bytes', 'bq_dot_product_is_n_minus_2h_8_bytes']), ('bq_manhattan', ['bq_manhattan_is_2h_8_bytes'])],
-                 'thorough': [('bq_codec', BQ_MORE), ('bq_distance', ['bq_euclidean_is_4h_16_bytes'])]},
+        'kani': {'quick': [('bq_codec', BQ_QUICK), ('bq_distance', ['bq_euclidean_is_4h_8_bytes', 'bq_dot_product_is_n_minus_2h_8_bytes']), ('bq_manhattan', ['bq_manhattan_is_2h_8_bytes']),
+                           ('metric_formulas', ['bq_cosine_self_distance_is_zero_at_d65'])],
+                 'thorough': [('bq_codec', BQ_MORE), ('bq_distance', ['bq_euclidean_is_4h_16_bytes']), ('metric_formulas', ['bq_cosine_is_in_the_unit_interval'])]},
         'trusted': ['lengths proved: sign packing 1, 63, 64, 65 (quick) + 2, 7, 8, 9, 31, 33, 127, 128, 129 (thorough), contents fully symbolic; other lengths are NOT claimed',
                     'the SSE unpacking path to_vec_sse (intrinsics) is not verified; the plain iterator and to_vec_non_optimized are',
                     'NEON code is not compiled on this host'],
-        'not_decided': ['cosine: h / (64*ceil(d/64)) needs sqrt on floats (not decided); the xor/popcount dot product it is computed from is proved',
+        'not_decided': ['cosine: the exact value h / (64*ceil(d/64)) needs sqrt and division on floats (not decided); decided: the xor/popcount dot product it is computed from, that the reported value is in [0, 1] for all header norms (thorough tier, ~4 min) and exactly 0 in the concrete case of finding F9 (d = 65)',
                         'generalisation of the packing proof to every d <= 300'],
     },
     'C16': {
